@@ -14,7 +14,9 @@ open Finam Finam.Py
 theorem tr_interpolate (o n dt : Rat) : Tr.interpolate o n dt = .ok (TA.lerp o n dt) := rfl
 
 theorem tr_interpolate_step {α} (o n : α) (dt pos : Rat) :
-    Tr.interpolate_step o n dt pos = .ok (TA.stepSel o n dt pos) := rfl
+    Tr.interpolate_step o n dt pos = .ok (TA.stepSel o n dt pos) := by
+  unfold Tr.interpolate_step TA.stepSel
+  by_cases h : dt > pos <;> simp [h]
 
 theorem next_loop {α} (full : List (Int × α)) (t : Int) (d : List (Int × α)) :
     Tr.NextTime__interpolate.loop1 full t d = TA.nextLoop (toE d) t := by
@@ -148,7 +150,7 @@ theorem step_loop {α} (full : List (Int × α)) (pos : Rat) (t : Int) :
           have : (t' - p.1 : Int) ≠ 0 := by omega
           exact_mod_cast this
         have hne' : ¬ ((t' : Rat) - (p.1 : Rat) = 0) := by simpa using hne
-        simp [h1, h2, hp, Py.div, hne', Tr.interpolate_step, TA.stepSel, TA.frac]
+        simp [h1, h2, hp, Py.div, hne', tr_interpolate_step, TA.frac]
 
 /-- `LinearTime._interpolate` = `TA.linInterp` on a sorted buffer for a request not before its first entry
     (what `check_time` in `_get_data` establishes before `_interpolate` is called; before the first entry the
